@@ -59,6 +59,7 @@ UnitDecls == <<
   URef("b", "B"),
   UScaled("cb", "B", <<1, 100>>, "dec", "b"),
   UScaled("mb", "B", <<60, 1>>, "int", "b"),
+  UTerm("hmb", "A", << <<"ha", 1>>, <<"mb", 1>>, <<"b", -1>> >>),
   URef("d", "D"),
   UScaled("kd", "D", <<10, 1>>, "dec", "d"),
   UScaled("bd", "D", <<1, 8>>, "frac", "d"),
